@@ -20,3 +20,12 @@ CASES = [
     dict(id='c13-eq-top-digit-mod', prop='C13', file=D + 'int16_to_string.cpp', expect=None,
          old="   default:  *buffer   = '0' + value;", new="   default:  *buffer   = '0' + (value % 10);"),
 ]
+
+CASES += [
+    dict(id='c13-stringto-u64-signed', prop='C13', file='src/celma/format/string_to.hpp', expect='P4',
+         old="S2( uint64_t, stoul)", new="S2( uint64_t, stol)"),
+    dict(id='c13-stringto-i64-int', prop='C13', file='src/celma/format/string_to.hpp', expect='P4',
+         old="S2( int64_t, stol)", new="S2( int64_t, stoi)"),
+    dict(id='c13-eq-stringto-u64-ull', prop='C13', file='src/celma/format/string_to.hpp', expect=None,
+         old="S2( uint64_t, stoul)", new="S2( uint64_t, stoull)"),
+]
